@@ -182,9 +182,10 @@ def run_one(sc):
         def strategy(*a):
             c = script.next("retry_strategy" if kind == "step" else "wait_strategy")
             d = c["decision"]
+            delay = None if d.get("delay_none") else C.Duration(d["delay"] if isinstance(d["delay"], float) and not float(d["delay"]).is_integer() else int(d["delay"]))
             if kind == "step":
-                return RetryDecision(bool(d["should"]), C.Duration(int(d["delay"])))
-            return WaitForConditionDecision(bool(d["should"]), C.Duration(int(d["delay"])))
+                return RetryDecision(bool(d["should"]), delay)
+            return WaitForConditionDecision(bool(d["should"]), delay)
 
         def serdes_of(v):
             return None if v is None else ser
